@@ -706,7 +706,9 @@ def _S(name):
 def op_alphabet(thorough):
     A = []
     A += [("overlay", 0, None), ("overlay", 1, None), ("underlay", 0, None), ("underlay", 1, None),
-          ("overlay", 0, ("a", "zz")), ("underlay", 1, ("b", "a"))]
+          ("overlay", 0, ("a", "zz")), ("underlay", 1, ("b", "a")),
+          # an explicitly EMPTY selection selects nothing (it is not "no selection given")
+          ("overlay", 1, ()), ("underlay", 0, ())]
     A += [("clip", C.Q, 1, 3), ("clip", C.Q, None, 2), ("clip", C.Q, 3, None), ("clip", C.Q, 8, 9), ("clip", C.M, 0, 1)]
     A += [("prepend", 0, C.Q, 1), ("prepend", 1, C.Q, 3), ("prepend", 1, C.M, 0)]
     A += [("copy", None, None), ("copy", _L("a", "b"), None), ("copy", _S("a"), _S("d")),
